@@ -391,7 +391,7 @@ def sym_program_job(prog: str) -> JobOut:
     from pv.props.c05 import _target
     from pv.sem import bounds as B
     from pv.sem.knlsem import KernelModel
-    P = {p.name: p for p in C.SYM_CORPUS}[prog]
+    P = {p.name: p for p in C.ALL_SYM}[prog]
     try:
         outs, ins, S = C.build_sym_pytato(P)
     except NotImplementedError as e:
@@ -413,7 +413,9 @@ def sym_program_job(prog: str) -> JobOut:
     sides.append(Side(f"{prog}/kernel-structure", not model.structural_problems, model.structural_problems[:4]))
     import loopy as lp
     vargs = {a.name for a in model.k.args if isinstance(a, lp.ValueArg)}
-    sides.append(Side(f"{prog}/size-parameters-are-kernel-value-arguments", set(P.sizes) <= vargs, sorted(vargs)))
+    used_sizes = {i_.name for i_ in pt.transform.InputGatherer()(dag) if isinstance(i_, pt.array.SizeParam)}
+    sides.append(Side(f"{prog}/size-parameters-are-kernel-value-arguments", used_sizes <= vargs,
+                      {"kernel value arguments": sorted(vargs), "size parameters the graph depends on": sorted(used_sizes)}))
     kinds = {n: "f" for n, *_ in P.inputs}
     nsz = len(P.sizes)
     obs = []
@@ -526,17 +528,17 @@ def jobs(tier: str, seed: int):
     for npar in (1, 2):
         J += [Job(MOD, "strided_job", {"nparams": npar, "chunk": c, "nchunks": 8, "seed": seed}, jid=f"strided/{npar}/{c}",
                   hard_timeout=900) for c in range(8)]
-    for P in C.SYM_CORPUS:
+    for P in C.sym_corpus(tier):
         J.append(Job(MOD, "sym_program_job", {"prog": P.name}, jid=f"{P.name}", hard_timeout=1200))
     meta = {
-        "programs": len(C.SYM_CORPUS),
+        "programs": len(C.sym_corpus(tier)),
         "explanation": "(a) direct SMT: real shape-equality/broadcast/stack decisions vs z3's verdict on 'exists sizes >= 0 "
                        "with e1 != e2' over a coefficient grid; (b,c) CrossHair/z3 with the size parameters symbolic and "
                        "unbounded: inferred shapes vs NumPy's rule, and the kernel generated once vs NumPy's meaning at a "
                        "symbolic index.",
         "bounds": {"affine pairs": "1 parameter: all 2401 pairs with coefficients in [-3,3]; 2 and 3 parameters: seeded "
                                    "samples plus near-equal / broadcast-against-1 pairs",
-                   "size-parameter programs": [p.name for p in C.SYM_CORPUS],
+                   "size-parameter programs": [p.name for p in C.sym_corpus(tier)],
                    "size parameter values": "all integers >= the program's minimum (0 or 1), unbounded"},
         "outside": ["operations pytato documents as unsupported for symbolic axes (reshape, advanced indexing, reductions "
                     "over symbolic axes, concatenate along a symbolic axis) -- declined", "non-affine shape expressions other than the strided-slice lengths (e + k - 1) // k"],
